@@ -408,7 +408,7 @@ package corebgp
 //@   at call openSent#0 assert [approved] echoTo == 4
 //@   at call openConfirm#0 assert [approved] echoTo == 5
 //@   at call established#0 assert [approved] echoTo == 6
-//@   at return#0 assert [cease_when_disabled_mid_transition] toBefore != 0 && t.from > 3 && f.conn != nil ==> lastNotif(f.conn, 6, 0)
+//@   at return assert [cease_when_disabled_mid_transition] toBefore != 0 && t.from > 3 && f.conn != nil ==> lastNotif(f.conn, 6, 0)
 //@   loop#0 invariant [state] fsmSelf(f) && readerFields(f) && stateReq(f, t.to) && t.to <= 6 && t.from <= 6 && (t.to == 5 ==> t.from == 4) && !chanClosed(f.doneCh) && (t.to == 0 || t.to == 1 ==> !dialPending(f))
 //@   modifies f.conn, f.remoteID, f.holdTime, f.keepAliveInterval, f.keepAliveTimer, f.holdTimer, f.connectRetryTimer, f.dialResultCh, f.cancelDialFn, f.closeReaderCh, f.closeReaderOnce, f.readerDoneCh, f.readerErrCh, f.readerMsgCh, nwrites, lastKind, lastCode, lastSub, lastDataLen, lastData0, connClosed, readerRunning(f), dialPending(f), chanClosed, onceDone, timerOn, timerDur, timerMayHold
 //@   ensures [everything_stopped] f.conn == nil && !readerRunning(f) && !dialPending(f) && chanClosed(f.doneCh)
